@@ -1198,6 +1198,10 @@ func poolOK(pool []atom) []bool {
 
 // shortClass names an element for signatures: values whose hash is not computable without a VM thread
 // (value.Hash reports NotBuiltinError: ranges, tuples, records, …) form one class.
+// identityHashedKeyEqualText counts collections with identity-hashed keys whose evaluated text prints like the
+// original but is not == to it (reported per case as a counter, not as a violation of this property).
+var identityHashedKeyEqualText int
+
 func shortClass(v value.Value) string {
 	if _, err := value.Hash(v); err == value.Ref(value.NotBuiltinError) {
 		return "whose hash needs the VM (Range, ArrayTuple, HashRecord, …)"
@@ -1246,6 +1250,28 @@ func collItems(r *engine.R, k coll, pool []atom, ok []bool, depth string) []item
 		}
 		bad := !allOK
 		idx = append([]int(nil), idx...)
+		// Ranges, tuples and records have no `hash` method: as keys they are hashed by identity although ==
+		// is structural, so == between two hash collections holding them depends on table capacity (a C17/C18
+		// matter). When the evaluated collection prints exactly like the original, such a == failure is not
+		// attributed to inspect.
+		identityKey := false
+		for p, i := range idx {
+			isKey := k.kind == "HashSet" || (k.pair && p%2 == 0)
+			if _, err := value.Hash(pool[i].v); isKey && err == value.Ref(value.NotBuiltinError) {
+				identityKey = true
+			}
+		}
+		var cmp func(orig, got value.Value) (bool, string)
+		if identityKey {
+			cmp = func(orig, got value.Value) (bool, string) {
+				ok, how := same(orig, got)
+				if !ok && how == "not-equal" && safeInspect(orig) == safeInspect(got) {
+					identityHashedKeyEqualText++
+					return true, ""
+				}
+				return ok, how
+			}
+		}
 		classFn := func(how string, okv []bool) string {
 			if len(idx) == 0 {
 				return "empty"
@@ -1274,7 +1300,7 @@ func collItems(r *engine.R, k coll, pool []atom, ok []bool, depth string) []item
 		}
 		index[key(idx)] = len(items)
 		items = append(items, item{kind: k.kind, orig: v, src: v.Inspect(), desc: fmt.Sprintf("%s (%s)", k.kind, strings.Join(names, ", ")), nt: true,
-			skipIf: func() bool { return bad }, classFn: classFn})
+			skipIf: func() bool { return bad }, classFn: classFn, cmp: cmp})
 	}
 	n := len(pool)
 	if !k.pair {
@@ -1338,14 +1364,18 @@ func runCollections(c *engine.Ctx) {
 			pool := atoms()
 			ok := poolOK(pool)
 			items := collItems(r, k, pool, ok, "depth-1")
+			identityHashedKeyEqualText = 0
 			runItems(r, items)
+			r.Count("identity_hashed_key_same_text_but_not_==", identityHashedKeyEqualText)
 			r.Sample(items[len(items)-1].desc + " inspects as " + items[len(items)-1].src)
 		})
 		c.Case("collection/depth2/"+k.kind, func(r *engine.R) {
 			pool := depth1Pool()
 			ok := poolOK(pool)
 			items := collItems(r, k, pool, ok, "depth-2")
+			identityHashedKeyEqualText = 0
 			runItems(r, items)
+			r.Count("identity_hashed_key_same_text_but_not_==", identityHashedKeyEqualText)
 			r.Sample(items[len(items)-1].desc + " inspects as " + items[len(items)-1].src)
 		})
 	}
